@@ -80,7 +80,7 @@ func runShell(c *Ctx, shell string, script string, args ...string) ShellResult {
 }
 
 func runShellIn(c *Ctx, shell, dir, script string, args ...string) ShellResult {
-	ctx, cancel := context.WithTimeout(context.Background(), 3*time.Second)
+	ctx, cancel := context.WithTimeout(context.Background(), 10*time.Second)
 	defer cancel()
 	var argv []string
 	switch shell {
@@ -95,13 +95,24 @@ func runShellIn(c *Ctx, shell, dir, script string, args ...string) ShellResult {
 	cmd := exec.CommandContext(ctx, argv[0], argv[1:]...)
 	cmd.Dir = dir
 	cmd.Env = shellEnv(c, dir)
-	var out bytes.Buffer
-	cmd.Stdout = &out
-	cmd.Stderr = io.Discard
+	// stdout goes to a file, not a pipe: no copy goroutine that could lag behind under load
+	scratchMu.Lock()
+	scratchN++
+	outPath := filepath.Join(filepath.Dir(dir), fmt.Sprintf("out%d.txt", scratchN))
+	scratchMu.Unlock()
+	outF, ferr := os.Create(outPath)
+	if ferr != nil {
+		return ShellResult{Status: -1, Err: ferr.Error(), TimedOut: true}
+	}
+	defer os.Remove(outPath)
+	cmd.Stdout = outF
+	cmd.Stderr = nil
 	cmd.Stdin = nil
-	cmd.WaitDelay = 200 * time.Millisecond
+	cmd.WaitDelay = 2 * time.Second
 	err := cmd.Run()
-	res := ShellResult{Stdout: out.String()}
+	outF.Close()
+	ob, _ := os.ReadFile(outPath)
+	res := ShellResult{Stdout: string(ob)}
 	if ctx.Err() != nil {
 		res.TimedOut = true
 		return res
